@@ -15,7 +15,8 @@ import (
 //	loopvar-assign      3-clause for with `:=` init: the body writes (or takes the address of) the loop variable
 //	loopvar-nocond      for with `:=` init and no condition or no post: a function literal in the body captures the variable
 //	loopvar-second      3-clause for with `i, j := ...`: a function literal captures a variable other than the first
-//	loopvar-defer       defer of a function literal inside a loop body that uses a per-iteration loop variable
+//	loopvar-defer       defer of a function literal inside a loop body that uses a per-iteration loop variable or a
+//	                    variable declared (:= / var) directly in that loop body
 //	loop-empty-body     3-clause for with `:=` init, or range statement, with an empty body
 //	land-reread         `x && f()` / `x || f()` with a variable-like left operand and a call on the right
 //	return-named        return with explicit results mentioning a named result of the function
@@ -67,7 +68,9 @@ func c1ClassifyRegion(src string) string {
 		switch x := n.(type) {
 		case *ast.ForStmt:
 			c1ClassifyFor(x, set)
+			c1DeferInLoop(x.Body, c1BodyDeclared(x.Body), set)
 		case *ast.RangeStmt:
+			c1DeferInLoop(x.Body, c1BodyDeclared(x.Body), set)
 			if c1EmptyBody(x.Body) {
 				set("loop-empty-body")
 			}
@@ -397,6 +400,37 @@ func c1FuncLitMentions(n ast.Node, names []string) bool {
 		return true
 	})
 	return found
+}
+
+// c1BodyDeclared: the variables declared by := or var directly in the statement list of a loop body
+// (each execution creates a new variable; a deferred literal runs on the live frame and sees the last).
+func c1BodyDeclared(body *ast.BlockStmt) []string {
+	var names []string
+	for _, st := range body.List {
+		switch x := st.(type) {
+		case *ast.AssignStmt:
+			if x.Tok == token.DEFINE {
+				for _, l := range x.Lhs {
+					if id, ok := l.(*ast.Ident); ok && id.Name != "_" {
+						names = append(names, id.Name)
+					}
+				}
+			}
+		case *ast.DeclStmt:
+			if gd, ok := x.Decl.(*ast.GenDecl); ok && gd.Tok == token.VAR {
+				for _, sp := range gd.Specs {
+					if vs, ok := sp.(*ast.ValueSpec); ok {
+						for _, id := range vs.Names {
+							if id.Name != "_" {
+								names = append(names, id.Name)
+							}
+						}
+					}
+				}
+			}
+		}
+	}
+	return names
 }
 
 func c1DeferInLoop(body *ast.BlockStmt, names []string, set func(string)) {
